@@ -351,6 +351,7 @@ def C11(tier, seed):
     c = Check("C11", tier, seed)
     binp = build_harness(ALL)
     m_matches(c, binp, tier, "match")
+    traces(c, binp, "match", tier, quick_n=3000)
     traces(c, binp, "hist", tier, quick_n=2000)
     return c.finish(rule="108 identifiers squared x 9 extension settings x 4 flag pairs through Locale::matches, LanguageIdentifier::matches (also against a Locale via AsRef) and Language::matches; the definition and its laws are invariants of the model",
                     assumptions=ASSUME_COMMON, exhaustive=True)
@@ -514,7 +515,7 @@ def C20(tier, seed):
     n = 1500 if tier == "quick" else 8000
     d = os.path.join(WORK, "traces")
     os.makedirs(d, exist_ok=True)
-    drivers = ["parse", "hist-nolikely", "meta", "sub", "likely"]
+    drivers = ["parse", "hist-nolikely", "meta", "sub", "match", "likely"]
     logs = {}
     for fs in FEATURE_SETS:
         binp = build_harness(fs)
